@@ -114,6 +114,7 @@ DATUMS = [
     ("e", "(nil t)"), ("e", "1+"), ("e", "55033ea4-52b5"),
     # the last code point below a boundary followed by one more digit (prefixes end on a surrogate / the maximum)
     ("d", "#\\xDFFF0"), ("e", "?\\xDFFF0"), ("d", "#\\xD7FFF"), ("d", "#\\x10FFFF"), ("d", '"\\xDFFF0;"'), ("e", '"\\uD7FF"'),
+    ("e", '"\\xD8000"'), ("e", '"\\N{U+D8000}"'), ("e", '"a\\xDFFFF\\ b"'), ("e", '"\\x10FFFF"'),
 ]
 # every printable ASCII character as a character literal of each syntax (plain and, for Emacs Lisp, escaped)
 BS = "\u00a7"       # the marker main() turns into one backslash
